@@ -92,6 +92,11 @@ func (c CurlyRouter) matchesRouteByPathTokens(routeTokens, requestTokens []strin
 				if matchesRemainder {
 					break
 				}
+			} else if closing := strings.Index(routeToken, "}"); closing != -1 && closing < len(routeToken)-1 {
+				// {var}suffix : the request token must end with the literal suffix
+				if !strings.HasSuffix(requestToken, routeToken[closing+1:]) {
+					return false, 0, 0
+				}
 			}
 		} else { // no { prefix
 			if requestToken != routeToken {
